@@ -69,7 +69,14 @@ def writers(ctx, o, eff):
     for f in prog.all_funcs():
         for w in eff.direct_writes(f):
             if w.field == '_Task__wbs':
-                if f.qual in OWNERS['_Task__wbs']:
+                workers = set()
+                for nm in ('_attach', '_detach'):
+                    e = prog.funcs.get('task.Task.' + nm)
+                    if e is not None:
+                        wk = _owner_worker(prog, e, eff)[0]
+                        if wk is not None:
+                            workers.add(wk.qual)
+                if f.qual in OWNERS['_Task__wbs'] or f.qual in workers:
                     o.site(f, w.node, f"{f.name}: {src(w.node)[:40]}")
                 else:
                     o.refute(f, w.node, w.node, f"the owner pointer is written in {f.qual}, outside _attach/_detach")
@@ -86,27 +93,73 @@ def writers(ctx, o, eff):
         o.refute(tinit, st[0][0], st[0][0], "a new task is not created detached")
 
 
+def _owner_worker(prog, f, eff):
+    """(worker function, value kind) - the function that actually stores the owner for _attach/_detach: f itself, or a private
+    helper all of whose calls from f pass on f's argument (attach) / None (detach)"""
+    s = f.self_name
+    stores = [x for x in facts.attr_stores(f, '_Task__wbs') if isinstance(x[1].value, ast.Name) and x[1].value.id == s]
+    if stores:
+        return f, None, None
+    calls = []
+    for n in walk_no_nested(f.node):
+        if isinstance(n, ast.Call) and isinstance(n.func, ast.Attribute) and isinstance(n.func.value, ast.Name) and n.func.value.id == s:
+            m = prog.find_method('Task', unmangle(n.func.attr))
+            if m is not None and any(w.field == '_Task__wbs' for w in eff.direct_writes(m)):
+                calls.append((n, m))
+    if len(calls) == 1:
+        return calls[0][1], calls[0][0], f
+    return None, None, None
+
+
 def recursion(ctx, o):
     prog = ctx.prog
+    eff = Effects(prog, ctx.typer, ctx.cg)
     for name, val_ok in (('_attach', 'param'), ('_detach', 'none')):
-        f = prog.funcs.get('task.Task.' + name)
-        if f is None:
+        entry = prog.funcs.get('task.Task.' + name)
+        if entry is None:
             o.refute(None, None, name, f"Task.{name} does not exist: the owner can never {'be set' if name == '_attach' else 'be cleared'}")
+            continue
+        f, via_call, via_f = _owner_worker(prog, entry, eff)
+        if f is None:
+            o.refute(entry, entry.node, name, f"{name} stores the owner 0 times")
             continue
         s = f.self_name
         cfg = cfg_of(f)
+        rec_name = f.name
         stores = [x for x in facts.attr_stores(f, '_Task__wbs') if isinstance(x[1].value, ast.Name) and x[1].value.id == s]
         if len(stores) != 1:
             o.refute(f, f.node, name, f"{name} stores the owner {len(stores)} times")
             continue
         st, tgt, val = stores[0]
-        if val_ok == 'param':
-            p = [x for x in f.params if x != s][0]
+        wp = [x for x in f.params if x != s]
+        if via_call is not None:
+            # the entry point delegates: check what it passes and under which condition
+            ecfg = cfg_of(entry)
+            a = via_call.args[0] if via_call.args else None
+            ep = [x for x in entry.params if x != entry.self_name]
+            conds = [facts.norm_cond(t, q) for t, q in facts.node_conditions(prog, entry, via_call, ctx.typer, expand=False)]
+            if val_ok == 'param':
+                if not (isinstance(a, ast.Name) and ep and a.id == ep[0]):
+                    o.refute(entry, via_call, via_call, f"_attach hands `{src(a) if a is not None else '?'}` on instead of its argument")
+                    continue
+                bad = [(t, q) for t, q in conds if not (match(f"{ep[0]} is None", t) and not q)]
+                if bad:
+                    o.refute(entry, via_call, via_call, "_attach skips the owner update when " + ', '.join(facts.cond_texts(bad)))
+                    continue
+            else:
+                if not (isinstance(a, ast.Constant) and a.value is None) or conds:
+                    o.refute(entry, via_call, via_call, "_detach does not clear the owner unconditionally")
+                    continue
+            if not (isinstance(val, ast.Name) and wp and val.id == wp[0]) or cfg.conditions(cfg.node_of(st)):
+                o.refute(f, st, st, f"{f.name} does not store the owner it is given unconditionally")
+                continue
+        elif val_ok == 'param':
+            p = wp[0]
             if not (isinstance(val, ast.Name) and val.id == p):
                 o.refute(f, st, st, f"_attach stores `{src(val)}` instead of its argument")
                 continue
-            conds = facts.node_conditions(prog, f, st, ctx.typer, expand=False)
-            bad = [(t, q) for t, q in conds if not ((match(f"{p} is None", t) and not q) or (match(f"{p} is not None", t) and q))]
+            conds = [facts.norm_cond(t, q) for t, q in facts.node_conditions(prog, f, st, ctx.typer, expand=False)]
+            bad = [(t, q) for t, q in conds if not (match(f"{p} is None", t) and not q)]
             if bad:
                 o.refute(f, st, st, "_attach skips the owner update when " + ', '.join(facts.cond_texts(bad)))
                 continue
@@ -118,7 +171,7 @@ def recursion(ctx, o):
                 o.refute(f, st, st, "_detach clears the owner only conditionally")
                 continue
         # recursion over all children
-        rec = [c for c in facts.calls_named(f, name) if isinstance(c.func, ast.Attribute) and not (isinstance(c.func.value, ast.Name) and c.func.value.id == s)]
+        rec = [c for c in facts.calls_named(f, rec_name) if isinstance(c.func, ast.Attribute) and not (isinstance(c.func.value, ast.Name) and c.func.value.id == s)]
         ok = False
         for c in rec:
             fo = None
@@ -131,13 +184,11 @@ def recursion(ctx, o):
             tgt_ok = isinstance(fo.target, ast.Name) and isinstance(c.func.value, ast.Name) and c.func.value.id == fo.target.id
             inner = [t for t in cfg.conditions(cfg.node_containing(c)) if cfg.dominates(cfg.node_of(fo), cfg.node_containing(t[0]) or cfg.entry)]
             if it_ok and tgt_ok and not inner:
-                if name == '_attach':
-                    p = [x for x in f.params if x != s][0]
-                    if not (c.args and isinstance(c.args[0], ast.Name) and c.args[0].id == p):
-                        o.refute(f, c, c, "children are attached to something else than the given WBS")
-                        continue
+                if wp and not (c.args and isinstance(c.args[0], ast.Name) and c.args[0].id == wp[0]):
+                    o.refute(f, c, c, "children get another owner than the task itself")
+                    continue
                 ok = True
-                o.site(f, c, f"for ch in self.children: ch.{name}(..)")
+                o.site(f, c, f"{name}: for ch in self.children: ch.{rec_name}(..)")
             elif it_ok and tgt_ok:
                 o.refute(f, c, c, f"{name} recurses only into some children")
             else:
@@ -214,8 +265,8 @@ def detach_paired(ctx, o):
         v = fo.target.id if isinstance(fo.target, ast.Name) else None
         conds = [(t, q) for t, q in facts.node_conditions(prog, f, c, ctx.typer, expand=False)
                  if cfg.node_containing(t) is not None and cfg.dominates(cfg.node_of(fo), cfg.node_containing(t))]
-        kept = [(t, q) for t, q in conds if (match(f"{v}._Task__parent is None", t) and q) or
-                (match(f"{v} not in $val", t) and q) or (match(f"{v}._Task__parent is not {s}", t) and q)]
+        kept = [(t, q) for t, q in conds if facts.cond_is(t, q, f"{v}._Task__parent is None", True) is not None or
+                facts.cond_is(t, q, f"{v} in $val", False) is not None or facts.cond_is(t, q, f"{v}._Task__parent is {s}", False) is not None]
         if isinstance(c.func.value, ast.Name) and c.func.value.id == v and len(kept) == len(conds) and kept:
             o.site(f, c, f"for {v} in old: if not re-attached: {v}._detach()")
         elif not conds:
@@ -234,46 +285,18 @@ def _for_of(f, node):
 
 def owner_guards(ctx, o, eff):
     prog = ctx.prog
-    # parent setter, attached mode
-    f = prog.func(SETTERS['parent'])
-    cfg = cfg_of(f)
-    gfs = guard_facts(ctx, f)
-    writes = relation_write_nodes(ctx, f, eff)
-    g1 = [g for g in gfs if ('wbsneq(arg,self)', True) in g.atoms and ('wbsnone(self)', False) in g.atoms and g.exc == 'RuntimeError']
-    if g1 and not g1[0].unknown:
-        from .c05 import _reaches_under
-        late = [w for w in T.writes_not_preceded(cfg, f, g1[0], writes) if _reaches_under(cfg, f, w[0], g1[0])]
-        if late:
-            o.refute(f, g1[0].node, g1[0].node, "the same-WBS guard of the parent setter does not precede the first write")
-        else:
-            o.site(f, g1[0].node, "attached task + parent of another owner -> RuntimeError")
-    else:
-        o.refute(f, f.node, 'parent: same WBS', "an attached task can be given a parent that belongs to another WBS (or to none)")
-    # children setter
-    f = prog.func(SETTERS['children'])
-    cfg = cfg_of(f)
-    gfs = guard_facts(ctx, f)
-    writes = relation_write_nodes(ctx, f, eff)
     from .c05 import _reaches_under
-    want = [("detached receiver + attached child", {('wbsnone(self)', True), ('wbsnone(elem)', False)}),
-            ("attached receiver + child of another owner", {('wbsnone(self)', False), ('wbsnone(elem)', False), ('wbsneq(elem,self)', True)})]
-    for label, atoms in want:
-        cand = [g for g in gfs if set(g.atoms) == atoms and g.exc == 'RuntimeError' and g.binder == 'elem' and not g.unknown]
-        if not cand:
-            near = [g for g in gfs if atoms & set(g.atoms) and any(a.startswith('wbs') and a != 'wbsnone(self)' for a, p in g.atoms)
-                    and not any(a.startswith('call:') for a, p in g.atoms)]
-            if near and set(near[0].atoms) != atoms and dict(near[0].atoms).get('wbsnone(self)') == dict(atoms).get('wbsnone(self)'):
-                o.refute(f, near[0].node, label, f"[{label}] is tested as {sorted(near[0].atoms)}; expected {sorted(atoms)}")
-            else:
-                o.refute(f, f.node, label, f"[{label}] is not rejected before the old children are released: a rejected cross-WBS assignment "
-                                           f"leaves old children unparented")
-            continue
-        g = cand[0]
-        late = [w for w in T.writes_not_preceded(cfg, f, g, writes) if _reaches_under(cfg, f, w[0], g)]
-        if late:
-            o.refute(f, g.node, label, f"[{label}] is checked after `{src(late[0][1])[:40]}`")
-        else:
-            o.site(f, g.node, label + " -> RuntimeError")
+    A, N, AND = T.F_atom, T.F_not, T.F_and
+    f = prog.func(SETTERS['parent'])
+    writes = relation_write_nodes(ctx, f, eff)
+    T.require(ctx, o, f, "attached task + parent of another owner", AND(N(A('wbsnone(self)')), N(A('none(arg)')), A('wbsneq(arg,self)')),
+              writes, eff, False, mode_filter=_reaches_under)
+    f = prog.func(SETTERS['children'])
+    writes = relation_write_nodes(ctx, f, eff)
+    T.require(ctx, o, f, "detached receiver + attached child", AND(A('wbsnone(self)'), N(A('wbsnone(elem)'))), writes, eff, True,
+              mode_filter=_reaches_under)
+    T.require(ctx, o, f, "attached receiver + child of another owner",
+              AND(N(A('wbsnone(self)')), N(A('wbsnone(elem)')), A('wbsneq(elem,self)')), writes, eff, True, mode_filter=_reaches_under)
 
 
 def removal_paths(ctx, o):
@@ -291,7 +314,8 @@ def removal_paths(ctx, o):
     else:
         o.refute(f, f.node, 'roots', "WBS.roots assignment bypasses the root task's children assignment")
     f = prog.func('wbs.WBS.__remove')
-    if any(match("$c.children.remove($t)", n) for n in ast.walk(f.node)):
+    exr = Expander(prog, f, ctx.typer, inline=False)
+    if any(match("$c.children.remove($t)", exr.expand(n)) for n in facts.calls_named(f, 'remove')):
         o.site(f, f.node, "WBS.remove -> children.remove")
     else:
         o.refute(f, f.node, '__remove', "WBS.remove does not remove through the child list facade")
